@@ -80,9 +80,9 @@ def _assigned(stmts):
     return out
 
 
-def _inlinable(prog, f, call, stack):
+def _inlinable(prog, f, call, stack, keep=()):
     h = prog.resolve_callable(f, f.module, call.func)
-    if not isinstance(h, Func) or h.is_lambda or h.parent is not None or h in stack or h is f:
+    if not isinstance(h, Func) or h.is_lambda or h.parent is not None or h in stack or h is f or h.name in keep:
         return None
     if not h.name.startswith('_'):
         return None
@@ -151,8 +151,8 @@ def _stmt_helper(h):
 
 
 class _Inliner:
-    def __init__(self, prog, f, depth):
-        self.prog, self.f, self.depth = prog, f, depth
+    def __init__(self, prog, f, depth, keep=()):
+        self.prog, self.f, self.depth, self.keep = prog, f, depth, tuple(keep)
         self.taken = set(f.params) | _assigned(f.node.body) | {n.id for n in ast.walk(f.node) if isinstance(n, ast.Name)}
         self.count = 0
 
@@ -165,7 +165,7 @@ class _Inliner:
                 self.generic_visit(n)
                 if depth <= 0:
                     return n
-                h = _inlinable(me.prog, me.f, n, stack)
+                h = _inlinable(me.prog, me.f, n, stack, me.keep)
                 if h is None:
                     return n
                 ex = _expr_helper(h)
@@ -206,8 +206,30 @@ class _Inliner:
             call, kind = s.value, 'return'
         elif isinstance(s, ast.Expr) and isinstance(s.value, ast.Call):
             call, kind = s.value, 'expr'
+        # a statement helper called inside a larger expression (`return g(a, unit=_normalize(u))`): the call is hoisted
+        # into a temporary first (the view only has to preserve what is computed, not the order of evaluation)
+        if depth > 0 and isinstance(s, (ast.Assign, ast.Return, ast.Expr)) and s.value is not None:
+            top = s.value
+            for n in ast.walk(top):
+                if isinstance(n, ast.Call) and n is not top:
+                    h = _inlinable(self.prog, self.f, n, stack, self.keep)
+                    if h is not None and _expr_helper(h) is None and _stmt_helper(h)[1] is not None and _bind(h, n) is not None:
+                        nm = self.fresh('tmp', h)
+                        self.taken.add(nm)
+                        pre = ast.copy_location(ast.Assign(targets=[ast.Name(id=nm, ctx=ast.Store())], value=n), s)
+                        ast.fix_missing_locations(pre)
+
+                        class R(ast.NodeTransformer):
+                            def visit_Call(self_, c):
+                                if c is n:
+                                    return ast.copy_location(ast.Name(id=nm, ctx=ast.Load()), c)
+                                self_.generic_visit(c)
+                                return c
+                        s2 = copy.copy(s)
+                        s2.value = R().visit(s.value)
+                        return self.stmt(pre, stack, depth) + self.stmt(s2, stack, depth)
         if call is not None and depth > 0:
-            h = _inlinable(self.prog, self.f, call, stack)
+            h = _inlinable(self.prog, self.f, call, stack, self.keep)
             if h is not None and _expr_helper(h) is None:
                 body, ret = _stmt_helper(h)
                 b = _bind(h, call)
@@ -294,14 +316,14 @@ class _Inliner:
 _CACHE = {}
 
 
-def inline_view(prog, f, depth=2):
+def inline_view(prog, f, depth=2, keep=()):
     """Func like f with small private helpers inlined (f itself when nothing was inlined)"""
-    key = (id(prog), id(f), depth)
+    key = (id(prog), id(f), depth, tuple(keep))
     if key in _CACHE:
         return _CACHE[key]
     res = f
     if not f.is_lambda:
-        inl = _Inliner(prog, f, depth)
+        inl = _Inliner(prog, f, depth, keep)
         body = inl.block(list(f.node.body), [f], depth)
         if inl.count:
             node = copy.copy(f.node)
